@@ -207,6 +207,68 @@ example : ∃ σ', Applies libStore (libProc "list-ref" 0) [l123, num 1] 0 (.ok 
 example : ∃ σ', Applies libStore (libProc "list-ref" 0) [l123, num 3] 0 (.error typeErr) σ' ∧ libStore.Ext σ' :=
   list_ref_spec libFrame_libStore l123 3 (by decide) 0
 
+/-- `(last-pair x)`: the last pair of the spine of a non-empty (proper or improper) list
+(`lastPairS_ofList`); an error on `()` and on any other non-pair -/
+theorem last_pair_spec (h : LibFrame σ b) (x : Value) (env : Nat) :
+    ∃ σ', Applies σ (libProc "last-pair" b) [x] env (lastPairS x) σ' ∧ σ.Ext σ' :=
+  papp_last_pair b x σ env h
+
+example : ∃ σ', Applies libStore (libProc "last-pair" 0) [l123] 0 (.ok (Value.ofList [num 3])) σ' ∧ libStore.Ext σ' :=
+  last_pair_spec libFrame_libStore l123 0
+example : lastPairS .nil = .error typeErr ∧ lastPairS (.pair (num 1) (num 2)) = .ok (.pair (num 1) (num 2)) :=
+  ⟨rfl, rfl⟩
+
+/-- `(memq obj lst)`: the first sublist whose `car` is `eq?` to `obj` (`eq?` is the native `eqv?`
+here), `#f` if the proper list has none (`memS_ofList`); if `lst` is improper and no element
+before its tail matches, the `car` type error -/
+theorem memq_spec (h : LibFrame σ b) (obj lst : Value) (env : Nat) :
+    ∃ σ', Applies σ (libProc "memq" b) [obj, lst] env (memS obj lst) σ' ∧ σ.Ext σ' :=
+  papp_memq b obj lst σ env h
+
+theorem memv_spec (h : LibFrame σ b) (obj lst : Value) (env : Nat) :
+    ∃ σ', Applies σ (libProc "memv" b) [obj, lst] env (memS obj lst) σ' ∧ σ.Ext σ' :=
+  papp_memv b obj lst σ env h
+
+example : ∃ σ', Applies libStore (libProc "memv" 0) [num 2, l123] 0 (.ok (Value.ofList [num 2, num 3])) σ' ∧
+    libStore.Ext σ' :=
+  memv_spec libFrame_libStore (num 2) l123 0
+example : ∃ σ', Applies libStore (libProc "memq" 0) [num 7, l123] 0 (.ok (.bool false)) σ' ∧ libStore.Ext σ' :=
+  memq_spec libFrame_libStore (num 7) l123 0
+example : memS (num 7) (.pair (num 1) (num 2)) = .error typeErr := rfl
+
+/-- `(list? x)`: `#t` exactly for the proper lists (`isProperList_iff`) -/
+theorem list_pred_spec (h : LibFrame σ b) (x : Value) (env : Nat) :
+    ∃ σ', Applies σ (libProc "list?" b) [x] env (.ok (.bool (isProperList x))) σ' ∧ σ.Ext σ' :=
+  papp_list_pred b x σ env h
+
+example : ∃ σ', Applies libStore (libProc "list?" 0) [l123] 0 (.ok (.bool true)) σ' ∧ libStore.Ext σ' :=
+  list_pred_spec libFrame_libStore l123 0
+example : isProperList (.pair (num 1) (num 2)) = false := rfl
+
+/-- `(equal? x y)`: structural equality on pairs with `eqv?` at the leaves (`equalS`).
+DEVIATION from R7RS: vectors are leaves — two vectors are `equal?` only if they are the same
+object, whatever they contain. -/
+theorem equal_spec (h : LibFrame σ b) (x y : Value) (env : Nat) :
+    ∃ σ', Applies σ (libProc "equal?" b) [x, y] env (.ok (.bool (equalS x y))) σ' ∧ σ.Ext σ' :=
+  papp_equal b x y σ env h
+
+example : ∃ σ', Applies libStore (libProc "equal?" 0) [l123, l123] 0 (.ok (.bool true)) σ' ∧ libStore.Ext σ' :=
+  equal_spec libFrame_libStore l123 l123 0
+example : equalS l123 (Value.ofList [num 1, num 2]) = false ∧ equalS (.str "a") (.str "a") = true ∧
+    equalS (.vec 0) (.vec 1) = false := ⟨by decide, by decide, by decide⟩
+
+/-- `(make-list k fill)` for an integer `k` (`i32`): `k` copies of `fill`; none when `k ≤ 0`
+(`makeListS_nonpos`) -/
+theorem make_list_spec (h : LibFrame σ b) (k : Int) (hk : k ≤ 2147483647) (fill : Value) (env : Nat) :
+    ∃ σ', Applies σ (libProc "make-list" b) [.num (.int k), fill] env (.ok (makeListS k fill)) σ' ∧ σ.Ext σ' :=
+  papp_make_list b fill k.toNat k rfl hk σ env h
+
+example : ∃ σ', Applies libStore (libProc "make-list" 0) [num 2, num 7] 0 (.ok (Value.ofList [num 7, num 7])) σ' ∧
+    libStore.Ext σ' :=
+  make_list_spec libFrame_libStore 2 (by decide) (num 7) 0
+example : ∃ σ', Applies libStore (libProc "make-list" 0) [num (-3), num 7] 0 (.ok .nil) σ' ∧ libStore.Ext σ' :=
+  make_list_spec libFrame_libStore (-3) (by decide) (num 7) 0
+
 end lib
 
 end Ruschm.C11
